@@ -368,3 +368,79 @@ package raft
 //@ ensures l.committed == old(l.committed)
 //@ ensures l.inmem.markerIndex + len(l.inmem.entries) == old(l.inmem.markerIndex + len(l.inmem.entries))
 //@ ensures forall i int :: l.inmem.markerIndex <= i && i < l.inmem.markerIndex + len(l.inmem.entries) ==> l.termRaw(i) == old(l.termRaw(i))
+
+// ---------------------------------------------------------------- raft core (C03 C18 C02 C06)
+
+//@ pred (r *raft) wf() := r.log != nil && r.log.valid() && r.log.lastIdx() < MaxUint64 - 1 &&
+//@   r.remotes != nil && r.nonVotings != nil && r.witnesses != nil && r.votes != nil && r.readIndex != nil &&
+//@   r.remotes != r.nonVotings && r.remotes != r.witnesses && r.nonVotings != r.witnesses
+
+//@ func (r *raft) numVotingMembers [C18 C03]
+//@ ensures result == len(r.remotes) + len(r.witnesses)
+
+//@ func (r *raft) quorum [C18 C03 C06 C02]
+//@ ensures result == (len(r.remotes) + len(r.witnesses)) / 2 + 1
+
+//@ func (r *raft) isSingleNodeQuorum [C18]
+//@ ensures result == (len(r.remotes) + len(r.witnesses) < 2)
+
+//@ func (r *raft) raftState [C03 C04]
+//@ requires r.log != nil
+//@ ensures result.Term == r.term && result.Vote == r.vote && result.Commit == r.log.committed
+
+//@ func (r *raft) canGrantVote [C03]
+//@ ensures result == (r.vote == NoNode || r.vote == m.From || m.Term > r.term)
+
+//@ func (r *raft) send [C03 C18 C06 C04]
+//@ modifies r.msgs, elems(r.msgs[len(r.msgs):])
+//@ ensures len(r.msgs) == old(len(r.msgs)) + 1 && (ptr(r.msgs) == ptr(old(r.msgs)) || fresh(r.msgs))
+//@ ensures r.msgs[len(r.msgs) - 1].To == m.To && r.msgs[len(r.msgs) - 1].Type == m.Type && r.msgs[len(r.msgs) - 1].Reject == m.Reject &&
+//@    r.msgs[len(r.msgs) - 1].From == r.replicaID && r.msgs[len(r.msgs) - 1].LogIndex == m.LogIndex && r.msgs[len(r.msgs) - 1].LogTerm == m.LogTerm &&
+//@    r.msgs[len(r.msgs) - 1].Hint == m.Hint && r.msgs[len(r.msgs) - 1].HintHigh == m.HintHigh && r.msgs[len(r.msgs) - 1].Commit == m.Commit &&
+//@    len(r.msgs[len(r.msgs) - 1].Entries) == len(m.Entries) && ptr(r.msgs[len(r.msgs) - 1].Entries) == ptr(m.Entries)
+//@ ensures (m.Type == pb.RequestVote || m.Type == pb.RequestPreVote || m.Type == pb.RequestPreVoteResp || m.Type == pb.Propose || m.Type == pb.ReadIndex || m.Type == pb.LeaderTransfer) ==> r.msgs[len(r.msgs) - 1].Term == m.Term
+//@ ensures !(m.Type == pb.RequestVote || m.Type == pb.RequestPreVote || m.Type == pb.RequestPreVoteResp || m.Type == pb.Propose || m.Type == pb.ReadIndex || m.Type == pb.LeaderTransfer) ==> r.msgs[len(r.msgs) - 1].Term == r.term
+//@ ensures forall i int :: 0 <= i && i < old(len(r.msgs)) ==> r.msgs[i].Type == old(r.msgs[i].Type) && r.msgs[i].To == old(r.msgs[i].To) && r.msgs[i].Reject == old(r.msgs[i].Reject) && r.msgs[i].Term == old(r.msgs[i].Term)
+
+// one vote per term (V2) and the election restriction
+//@ func (r *raft) handleNodeRequestVote [C03]
+//@ requires r.wf() && (m.Term == 0 || m.Term == r.term)
+//@ modifies r.electionTick, r.vote, r.msgs, elems(r.msgs[len(r.msgs):])
+//@ ensures result == nil ==> len(r.msgs) == old(len(r.msgs)) + 1 && r.msgs[len(r.msgs) - 1].Type == pb.RequestVoteResp && r.msgs[len(r.msgs) - 1].To == m.From
+//@ ensures result == nil && !r.msgs[len(r.msgs) - 1].Reject ==> (old(r.vote) == NoNode || old(r.vote) == m.From) && r.vote == m.From &&
+//@    (m.LogTerm > r.log.termAt(r.log.lastIdx()) || (m.LogTerm == r.log.termAt(r.log.lastIdx()) && m.LogIndex >= r.log.lastIdx()))
+//@ ensures result == nil && r.msgs[len(r.msgs) - 1].Reject ==> r.vote == old(r.vote)
+//@ ensures result != nil ==> r.vote == old(r.vote) && len(r.msgs) == old(len(r.msgs))
+//@ ensures old(r.vote) != NoNode && old(r.vote) != m.From ==> r.vote == old(r.vote)
+
+//@ func (r *raft) handleNodeRequestPreVote [C03]
+//@ requires r.wf()
+//@ modifies r.msgs, elems(r.msgs[len(r.msgs):])
+//@ ensures result == nil ==> len(r.msgs) == old(len(r.msgs)) + 1 && r.msgs[len(r.msgs) - 1].Type == pb.RequestPreVoteResp && r.msgs[len(r.msgs) - 1].To == m.From
+//@ ensures result == nil && !r.msgs[len(r.msgs) - 1].Reject ==> m.Term > r.term &&
+//@    (m.LogTerm > r.log.termAt(r.log.lastIdx()) || (m.LogTerm == r.log.termAt(r.log.lastIdx()) && m.LogIndex >= r.log.lastIdx()))
+
+//@ func (r *raft) resetRemotes [C03 C18 C02]
+//@ requires r.wf()
+//@ modifies entries(r.remotes)
+//@ ensures (forall k uint64 :: (k in r.remotes) == old(k in r.remotes)) && len(r.remotes) == old(len(r.remotes))
+//@ ensures forall k uint64 :: k in r.remotes ==> r.remotes[k] != nil && fresh(r.remotes[k]) && r.remotes[k].next == r.log.lastIdx() + 1 &&
+//@    r.remotes[k].match == ite(k == r.replicaID, r.log.lastIdx(), 0)
+//@ loop 1 modifies entries(r.remotes), freshof(remote.match)
+//@ loop 1 invariant (forall k uint64 :: (k in r.remotes) == old(k in r.remotes)) && len(r.remotes) == old(len(r.remotes)) && r.remotes != nil
+//@ loop 1 invariant forall k uint64 :: visited(k) ==> r.remotes[k] != nil && fresh(r.remotes[k]) && r.remotes[k].next == r.log.lastIdx() + 1 &&
+//@    r.remotes[k].match == ite(k == r.replicaID, r.log.lastIdx(), 0)
+
+//@ func (r *raft) resetNonVotings [C03 C18]
+//@ requires r.wf()
+//@ modifies entries(r.nonVotings)
+//@ ensures (forall k uint64 :: (k in r.nonVotings) == old(k in r.nonVotings)) && len(r.nonVotings) == old(len(r.nonVotings))
+//@ loop 1 modifies entries(r.nonVotings), freshof(remote.match)
+//@ loop 1 invariant (forall k uint64 :: (k in r.nonVotings) == old(k in r.nonVotings)) && len(r.nonVotings) == old(len(r.nonVotings)) && r.nonVotings != nil
+
+//@ func (r *raft) resetWitnesses [C03 C18]
+//@ requires r.wf()
+//@ modifies entries(r.witnesses)
+//@ ensures (forall k uint64 :: (k in r.witnesses) == old(k in r.witnesses)) && len(r.witnesses) == old(len(r.witnesses))
+//@ loop 1 modifies entries(r.witnesses), freshof(remote.match)
+//@ loop 1 invariant (forall k uint64 :: (k in r.witnesses) == old(k in r.witnesses)) && len(r.witnesses) == old(len(r.witnesses)) && r.witnesses != nil
